@@ -8,7 +8,7 @@ fn secure_dump(n: &Node) -> Vec<String> {
     let m = n.dbs.map.read().unwrap();
     let db = m.get(&String::from("d")).unwrap();
     let dm = db.map.read().unwrap();
-    let mut keys: Vec<String> = dm.keys().map(|k| k.clone()).collect(); keys.sort();
+    let keys: Vec<String> = dm.keys().map(|k| k.clone()).collect();
     for k in keys.iter() { if k.starts_with("$$") { let v = dm.get(k).unwrap(); out.push([k.as_str(), "=", &v.value, "@", &v.version.to_string(), "s", &(v.state as usize).to_string()].concat()); } }
     out
 }
@@ -45,7 +45,13 @@ pub fn c08_noninterference() {
     vsym::tag(&words[w]);
     let wrapped = vsym::param("rp", 0) == 1;
     let nargs = vsym::choice("nargs", 4);
-    let inner = with_tokens(&words[w], nargs, vsym::param("arglen", 8));
+    let inner = if vsym::param("keymode", 0) == 1 && nargs >= 1 {
+        // quick tier: the first argument is one of the interesting key names or a short symbolic token, further arguments are short tokens
+        let k = vsym::choice("first-arg", 7);
+        vsym::tag_i("first-arg", k as i64);
+        let first = match k { 0 => String::from("$$s"), 1 => String::from("$$token"), 2 => String::from("$$user_o"), 3 => String::from("$$permission_$o"), 4 => String::from("pub"), 5 => String::from("d"), _ => vsym::any_token("arg", vsym::param("arglen", 3)) };
+        with_tokens(&[&words[w], " ", &first].concat(), nargs - 1, vsym::param("arglen", 3))
+    } else { with_tokens(&words[w], nargs, vsym::param("arglen", 8)) };
     let line = if wrapped { ["rp 7 ", &inner].concat() } else { inner };
     let before_a = secure_dump(&na); let before_b = secure_dump(&nb);
     let ra = process_request(&line, &na.dbs, &mut ca);
